@@ -12,11 +12,14 @@ from pathlib import Path
 
 VERIF = Path(__file__).resolve().parent.parent
 SPEC = VERIF / "spec"
-HARNESS = VERIF / "harness"
-OUT = VERIF / "out"
-EVID = VERIF / "evidence"
+# The registered checks always use /verif/harness (path deps on /repo) and /verif/out, /verif/evidence.
+# The environment overrides exist only so that mutants can be tried against a scratch copy of the
+# repository without touching /repo (lib/try_mutant.sh).
+HARNESS = Path(os.environ.get("VERIF_HARNESS", VERIF / "harness"))
+OUT = Path(os.environ.get("VERIF_OUT", VERIF / "out"))
+EVID = Path(os.environ.get("VERIF_EVID", VERIF / "evidence"))
 TPV = HARNESS / "target" / "debug" / "tpv"
-REPO = Path("/repo")
+REPO = Path(os.environ.get("VERIF_REPO", "/repo"))
 TLC_JAR_CP = "/opt/veriftools/tla/tla2tools.jar:/opt/veriftools/tla/CommunityModules-deps.jar"
 
 
